@@ -172,6 +172,7 @@ fn main() {
         }
         "fail" => {
             let mut o = failrun::Out { live: Some(std::fs::OpenOptions::new().create(true).append(true).open(format!("{}/oracle_live.txt", out)).unwrap()), oracle: vec![], stats: BTreeMap::new(), samples: vec![], nontrivial: 0, runs: 0 };
+            failrun::start_watchdog(format!("{}/oracle_live.txt", out), arg(&args, "--watchdog-ms", "30000").parse().unwrap());
             let mut r = rng::Rng::new(seed);
             let max_steps: u64 = arg(&args, "--steps", "6").parse().unwrap();
             let max_k: u64 = arg(&args, "--maxk", "40").parse().unwrap();
